@@ -61,7 +61,7 @@ SCRIPTS_T = {
         "if kind == 'ok' and CLASS == 'timed':\n"
         "    d = athlib.get_distance(ev)\n    t = athlib.parse_hms(r)\n"
         "    tol = Fraction(6, 1000) if prec is None else Fraction(1, 10**prec) + Fraction(1, 1000)\n"
-        "    if d and t:\n        T = Fraction(t)\n        ok = (T + tol) * (11 if d <= 400 else 10) >= d and (T - tol) <= 2 * d\n"
+        "    if d:\n        T = Fraction(t)\n        ok = T > 0 and (T + tol) * (11 if d <= 400 else 10) >= d and (T - tol) <= 2 * d\n"
         "    print(ev, repr(text), '->', repr(r), 'distance', d, 'duration', t)\n"
         "if kind == 'ok' and CLASS == 'field':\n"
         "    T = getattr(athlib.utils, 'field_event_records_by_gender'.upper())\n    rec = T.get((gender or 'all').lower(), T['all']).get(ev.upper())\n    ok = (not rec) or float(r) <= rec * 1.2 * (1 + 1e-9)\n    print(ev, repr(text), '->', repr(r), 'record', rec)\n"
@@ -191,7 +191,9 @@ def body(ev, cls, template, gender, prec):
                 # decimals (or rounding up to prec) can move it away from the duration the library checked
                 T = z3.ToReal(total) / scale
                 tol = z3.RealVal('6/1000') if prec is None else z3.RealVal(1) / (10 ** prec) + z3.RealVal('1/1000')
-                eng.check(z3.Implies(total > 0, z3.And((T + tol) * vmax >= d, (T - tol) <= 2 * d)), 'speed')
+                # (a printed duration of zero has no speed inside any limit: no exemption for it - the first version of this clause
+                # copied the library's own `if distance and duration` guard and thereby hid that '0' was accepted)
+                eng.check(z3.And(total > 0, (T + tol) * vmax >= d, (T - tol) <= 2 * d), 'speed')
         elif cls == 'field':
             cells = SymStr.lift(r).cells
             dots = [i for i, c in enumerate(cells) if cell_test(c, lambda ch: ch == '.')]
